@@ -48,6 +48,16 @@ Fixpoint split_on (c : Z) (s : text) : list text :=
            end
   end.
 
+(* Python  s.split(c, 1): at most one cut, at the FIRST separator *)
+Fixpoint cut_at (c : Z) (s : text) : option (text * text) :=
+  match s with
+  | [] => None
+  | x :: s' => if x =? c then Some ([], s')
+               else match cut_at c s' with Some (a, b) => Some (x :: a, b) | None => None end
+  end.
+Definition split_once (c : Z) (s : text) : list text :=
+  match cut_at c s with Some (a, b) => [a; b] | None => [s] end.
+
 (* Python  c.join(l) *)
 Fixpoint join (c : Z) (l : list text) : text :=
   match l with
@@ -91,6 +101,38 @@ Proof.
   - rewrite Z.eqb_refl. reflexivity.
   - destruct (Z.eqb_spec x c) as [E|E]. { exfalso. apply H. left. auto. }
     rewrite IH; auto.
+Qed.
+
+Lemma cut_at_app c a b : ~ In c a -> cut_at c (a ++ c :: b) = Some (a, b).
+Proof.
+  induction a as [|x a IH]; simpl; intro H.
+  - rewrite Z.eqb_refl. reflexivity.
+  - destruct (Z.eqb_spec x c) as [E|E]; [exfalso; apply H; left; auto|].
+    rewrite IH by (intro I; apply H; right; exact I). reflexivity.
+Qed.
+Lemma cut_at_none c s : ~ In c s -> cut_at c s = None.
+Proof.
+  induction s as [|x s IH]; simpl; intro H; auto.
+  destruct (Z.eqb_spec x c) as [E|E]; [exfalso; apply H; left; auto|].
+  rewrite IH by (intro I; apply H; right; exact I). reflexivity.
+Qed.
+Lemma cut_at_some c s a b : cut_at c s = Some (a, b) -> s = a ++ c :: b /\ ~ In c a.
+Proof.
+  revert a b. induction s as [|x s IH]; simpl; intros a b H; [discriminate|].
+  destruct (Z.eqb_spec x c) as [E|E].
+  - inversion H; subst. split; auto.
+  - destruct (cut_at c s) as [[a' b']|] eqn:C; [|discriminate]. inversion H; subst.
+    destruct (IH a' b eq_refl) as [S N]. split; [simpl; congruence|]. intros [I|I]; [congruence|auto].
+Qed.
+(* the value of "key:value" is everything after the first separator, whatever it contains *)
+Theorem split_once_app c a b : ~ In c a -> split_once c (a ++ c :: b) = [a; b].
+Proof. intro H. unfold split_once. rewrite cut_at_app by exact H. reflexivity. Qed.
+Theorem split_once_no_sep c s : ~ In c s -> split_once c s = [s].
+Proof. intro H. unfold split_once. rewrite cut_at_none by exact H. reflexivity. Qed.
+Theorem join_split_once c s : join c (split_once c s) = s.
+Proof.
+  unfold split_once. destruct (cut_at c s) as [[a b]|] eqn:C; [|reflexivity].
+  apply cut_at_some in C. destruct C as [S _]. simpl. symmetry. exact S.
 Qed.
 
 (* split is the inverse of join when no piece contains the separator *)
